@@ -134,6 +134,7 @@ class Minimize(Factory, Container):
             q = self.quantity(datum)
             if not isinstance(q, numbers.Real):
                 raise TypeError(f"function return value ({q}) must be boolean or number")
+            float(q)  # an int beyond the float range raises OverflowError here (it could not be serialised later)
 
             # no possibility of exception from here on out (for rollback)
             self.entries += weight
@@ -310,6 +311,7 @@ class Maximize(Factory, Container):
             q = self.quantity(datum)
             if not isinstance(q, numbers.Real):
                 raise TypeError(f"function return value ({q}) must be boolean or number")
+            float(q)  # an int beyond the float range raises OverflowError here (it could not be serialised later)
 
             # no possibility of exception from here on out (for rollback)
             self.entries += weight
